@@ -8,18 +8,18 @@ package main
 
 import "strings"
 
-type extStep func(sc *Scen, arg string)
+type f1Step func(sc *Scen, arg string)
 
-var extSteps = map[string]extStep{}
+var f1Steps = map[string]f1Step{}
 
-func registerStep(prefix string, f extStep) { extSteps[prefix] = f }
+func registerStep(prefix string, f f1Step) { f1Steps[prefix] = f }
 
 func runExtStep(sc *Scen, n string) bool {
 	name, arg := n, ""
 	if i := strings.Index(n, ":"); i >= 0 {
 		name, arg = n[:i], n[i+1:]
 	}
-	if f, ok := extSteps[name]; ok {
+	if f, ok := f1Steps[name]; ok {
 		f(sc, arg)
 		return true
 	}
